@@ -149,7 +149,8 @@ TWrite == /\ IsEvent("Write")
                 THEN /\ pend = 2 /\ Ev.sent >= 1 /\ Ev.sent <= Ev.n
                      /\ wpos' = [wpos EXCEPT ![d] = @ + Ev.sent] /\ wmax' = [wmax EXCEPT ![d] = wpos[d] + Ev.sent]
                      /\ rpos[d] <= wpos[d] + Ev.sent
-                ELSE /\ ~Honest /\ UNCHANGED <<wpos, wmax>>     \* an honest connection accepts every write
+                ELSE /\ UNCHANGED <<wpos, wmax>>                 \* an honest connection accepts every write -- except that TLCP / TLS 1.2 refuse to send while
+                     /\ (~Honest \/ (~IsTls13 /\ (IF Ev.who = "C" THEN cav ELSE sav)))     \* received data is still buffered ("recv all buffered data before send"): nothing is lost by that
           /\ IF Ev.who = "C" THEN cpend' = 0 /\ UNCHANGED spend ELSE spend' = 0 /\ UNCHANGED cpend
           /\ UNCHANGED vars
           /\ UNCHANGED <<cret, sret, ckeys, skeys, cshut, sshut, cav, sav, cfin, sfin, ceof, seof, rpos>>
